@@ -386,3 +386,24 @@ Proof.
   apply (received_sound src_cfg keys keys keys keys keys tuple Hnd Hl); auto.
 Qed.
 Print Assumptions C07_binding_as_coded.
+
+(* the schedule theorems of section 2 speak about the code as it is now: tasks own one cell each and the file index
+   is the row-major position (C07_schedule_independent, C07_rank_bijective), islands are pushed in submission order
+   (C07_island_order), the batch evaluator cuts and re-joins row-major with chunks of >= 1 row (C07_bfe_chunking) *)
+Theorem C07_schedule_rows_as_coded :
+  src_file_index_row_major = true /\ src_islands_by_submission = true /\ src_bfe_row_major = true.
+Proof. vm_compute. repeat split; reflexivity. Qed.
+Print Assumptions C07_schedule_rows_as_coded.
+
+(* file index of the cell with multi-index mi = its flat position in the cells = rank sh mi, for the array the
+   code builds now, any product space *)
+Theorem C07_file_index_as_coded :
+  forall vs sh cells, dask_params_cfg src_cfg (Product vs) = Some (sh, cells) ->
+  forall mi, valid_index sh mi -> rank sh mi < length cells /\ unrank sh (rank sh mi) = mi.
+Proof.
+  intros vs sh cells E mi Hv.
+  destruct (C07_product_mode src_cfg vs C07_product_as_coded) as (sh' & cells' & E' & _ & _ & L & _).
+  rewrite E in E'. injection E' as <- <-. rewrite L.
+  split; [now apply rank_lt|now apply unrank_rank].
+Qed.
+Print Assumptions C07_file_index_as_coded.
